@@ -138,6 +138,7 @@ def P(pid):
                                'under cfg(test)) equals the mocked one and the consumer guard. The Schnorr algebra is not decided.')
     elif pid == 'C05':
         R = [
+            ('RF-B index normalisation (prover and verifier agree on the canonical index lists)', rf_codec.rule_index_normalisation, 3),
             ('RF-D identity / zero guards test the value that is used afterwards', rf_gates.rule_guards_test_final_value, 4),
             ('RF-B pass-through arguments keep their role', rf_consts.rule_argument_roles, 40),
             ('RF-B message lists handed down whole', rf_consts.rule_list_integrity, 15),
@@ -201,6 +202,7 @@ def P(pid):
                                'conditions: acceptance is gated by the checked constructors and by identity / zero exclusion. Round-trip value equality is not decided.')
     elif pid == 'C10':
         R = [
+            ('RF-B index normalisation (prover and verifier agree on the canonical index lists)', rf_codec.rule_index_normalisation, 3),
             ('RF-L limit guards', rf_frame.rule_limit_guards, 3),
             ('A5 constants equal the drafts', rf_consts.rule_ciphersuite_constants, 30),
             ('RF-C octet-string ingredients are hashed whole', rf_hash.rule_whole_ingredients, 9),
@@ -330,7 +332,7 @@ ALL = ['C%02d' % i for i in range(1, 20)]
 CONTROLS = {
     'C01': ['seeded/C01-a/patch.diff', 'seeded/C01-b/patch.diff', 'seeded/C01-c/patch.diff', 'seeded/C01-d/patch.diff'],
     'C02': ['seeded/C02-a/patch.diff', 'seeded/C04-a/patch.diff', 'seeded/C02-b/patch.diff', 'seeded/C02-c/patch.diff', 'seeded/C02-d/patch.diff'],
-    'C03': ['seeded/C03-a/patch.diff', 'seeded/C09-a/patch.diff', 'seeded/C03-b/patch.diff', 'seeded/C03-c/patch.diff', 'seeded/C03-d/patch.diff'],
+    'C03': ['seeded/C03-a/patch.diff', 'seeded/C03-b/patch.diff', 'seeded/C03-c/patch.diff', 'seeded/C03-d/patch.diff'],
     'C04': ['selftest/mutants/unfix-4e31b69.patch', 'seeded/C04-a/patch.diff', 'seeded/C04-b/patch.diff', 'seeded/C04-c/patch.diff', 'seeded/C04-d/patch.diff'],
     'C05': ['seeded/C05-a/patch.diff', 'seeded/C05-b/patch.diff', 'seeded/C05-c/patch.diff', 'seeded/C05-d/patch.diff'],
     'C06': ['seeded/C06-a/patch.diff', 'seeded/C06-b/patch.diff', 'seeded/C06-c/patch.diff', 'seeded/C06-d/patch.diff'],
